@@ -50,6 +50,8 @@ def run(repo, rep):
     rep.clause("C11-b", "operator codes, tensor types and option-table ids map both ways without loss (totality / injectivity)")
     rep.clause("C11-c", "subgraph inputs / outputs are written from the source-order lists")
     rep.clause("C11-d", "the writer restores what the reader changed (operand order, reshaped constants) and the reader owns a private copy of constant data")
+    rep.clause("C11-d2", "every (type, custom code) operator code registered by the writer can be looked up again when the operator is written")
+    rep.clause("C11-d3", "the reader owns a private copy of constant data (rewrites edit tensor values in place)")
     rep.clause("C11-e", "rewrites that may visit CPU-resident operators do not mutate them before checking run_on_npu (thorough tier)")
     rep.undecided("that each surviving operator appears exactly once in dependency order for every network; that the file parses with a plain flatbuffer parser")
     tm = repo.mod("tflite_mapping")
@@ -261,9 +263,9 @@ def rule_pairing(repo, rep):
         uses_setdefault = any("setdefault" in norm(c) for c in calls_in(br[0]))
         ok = (len(per_code) == 1 or uses_setdefault) and not resets and (bool(guarded) or uses_setdefault)
         detail = "the inner per-custom-code dict is recreated for every code (only the last custom code survives -> KeyError when the operator is written)"
-    rep.check(ok, "C11-d", f"{TW}:TFLiteSerialiser.serialise_operator_code", "custom operator codes accumulate in operator_code_map[Op.Custom][custom_code]", detail)
+    rep.check(ok, "C11-d2", f"{TW}:TFLiteSerialiser.serialise_operator_code", "custom operator codes accumulate in operator_code_map[Op.Custom][custom_code]", detail)
     so = tw.func("TFLiteSerialiser.serialise_operator")
-    rep.check("self.operator_code_map[op.type][op.attrs.get('custom_code', '')]" in norm(so), "C11-d", f"{TW}:TFLiteSerialiser.serialise_operator",
+    rep.check("self.operator_code_map[op.type][op.attrs.get('custom_code', '')]" in norm(so), "C11-d2", f"{TW}:TFLiteSerialiser.serialise_operator",
               "custom operators are looked up by (type, custom code), matching the registration", "")
     # reader owns its constant data (rewrites edit tensor values in place)
     pt = tr.func("TFLiteSubgraph.parse_tensor")
@@ -273,7 +275,7 @@ def rule_pairing(repo, rep):
         if isinstance(v, ast.Constant) and v.value is None:
             continue
         ok = isinstance(v, ast.Call) and call_name(v) in ("np.array", "numpy.array", "np.copy") or (isinstance(v, ast.Call) and isinstance(v.func, ast.Attribute) and v.func.attr == "copy")
-        rep.check(ok, "C11-d", f"{TR}:TFLiteSubgraph.parse_tensor", f"constant data is copied out of the model buffer: {norm(s)[:90]}",
+        rep.check(ok, "C11-d3", f"{TR}:TFLiteSubgraph.parse_tensor", f"constant data is copied out of the model buffer: {norm(s)[:90]}",
                   "tensor values alias the flatbuffer: tensors sharing a buffer share memory and in-place rewrites leak into CPU-resident operators")
     # custom options round trip
     tm = repo.mod("tflite_mapping")
@@ -283,7 +285,9 @@ def rule_pairing(repo, rep):
               "third-party custom options bytes are kept and written back", "")
     rep.check("attrs['custom_options_format'] = op_data.CustomOptionsFormat()" in norm(cd) and "attrs.get('custom_options_format'" in norm(cs), "C11-d", f"{TM}:CustomOptionsSerializer",
               "custom options format is kept", "")
-    rep.floor("C11-d", 12)
+    rep.floor("C11-d", 10)
+    rep.floor("C11-d2", 2)
+    rep.floor("C11-d3", 1)
 
 
 # ------------------------------------------------------------------ e (thorough)
